@@ -203,10 +203,58 @@ var r02Symmetric = map[string]bool{
 func r02AxisPairing(c *core.Ctx) {
 	const R = "R02"
 	pairs := 0
-	for _, name := range r02Funcs {
-		f := c.Anchor(R, name)
+	// the listed functions, and package functions they hand both an x and a y quantity to (the paired formulas may
+	// have been moved there)
+	queue := append([]string{}, r02Funcs...)
+	queued := map[string]bool{}
+	for _, n := range queue {
+		queued[n] = true
+	}
+	for qi := 0; qi < len(queue); qi++ {
+		name := queue[qi]
+		var f *core.Func
+		if qi < len(r02Funcs) {
+			f = c.Anchor(R, name)
+		} else {
+			f = c.P.Lookup(name)
+		}
 		if f == nil {
 			continue
+		}
+		if qi < len(r02Funcs) {
+			finfo := f.Pkg.TypesInfo
+			ast.Inspect(f.Decl.Body, func(n ast.Node) bool {
+				call, ok := n.(*ast.CallExpr)
+				if !ok {
+					return true
+				}
+				cal := core.Callee(finfo, call)
+				if cal == nil {
+					return true
+				}
+				h := c.P.ByObj[cal.Origin()]
+				if h == nil || h.Pkg != f.Pkg || h.Decl.Body == nil || queued[h.Name] {
+					return true
+				}
+				hs := h.Obj.Type().(*types.Signature)
+				hasX, hasY := false, false
+				for i := 0; i < hs.Params().Len(); i++ {
+					switch nameFlavour(hs.Params().At(i).Name()) {
+					case "x":
+						hasX = true
+					case "y":
+						hasY = true
+					}
+				}
+				if hasX && hasY {
+					queued[h.Name] = true
+					queue = append(queue, h.Name)
+					if r02Symmetric[name] {
+						r02Symmetric[h.Name] = true // formulas moved out of a symmetric function stay symmetric
+					}
+				}
+				return true
+			})
 		}
 		info := f.Pkg.TypesInfo
 		type stmtInfo struct {
